@@ -1613,3 +1613,76 @@ def shift2d_clause(vals, num, direction):
                     show(num=num, direction=direction, nx=nx, ny=ny, flux=flux, kappa=kap, error=err)
                     ok = False
     return ok
+
+
+# ---- C13: change of units (bit for bit for power-of-two factors) ------------------------------------------------------
+
+def units_clause(vals, kind, flux, num, limiter, bcL, bcR):
+    """the real operator and time step on a problem and on the same problem in other units (factors 2^k): the result must be
+    the rescaled one bit for bit; data with O(1) and with very small variations (limiter regularisations act on small slopes)"""
+    import flowdyn.mesh as mesh, flowdyn.modeldisc as md, flowdyn.field as field
+    ok = True
+    for (ea, eb, el) in ((7, -5, 9), (-30, 12, 3), (40, 20, -10)):
+        a, b, l = 2.0 ** ea, 2.0 ** eb, 2.0 ** el
+        for amp in (1.0, 1e-9, 1e-19):
+            for n in (5, 8):
+                xf = np.cumsum(np.concatenate([[0.25], 0.5 + np.arange(n) * 0.125]))
+                rng = np.random.default_rng(17 * n + ea)
+                P = _random_prim(kind, n, seed=3 * n)
+                P = [np.full(n, float(p[0])) + amp * (p - p[0]) for p in P]
+                if kind == "convection":
+                    sP, sQ, spar, aconv = [a], [a], {}, 1.5
+                    m1 = build_model(kind, {"a": 1.5}); m2 = build_model(kind, {"a": 1.5 * b})
+                elif kind == "burgers":
+                    sP, sQ = [b], [b]
+                    m1 = build_model(kind, {}); m2 = build_model(kind, {})
+                elif kind == "shallowwater":
+                    sP, sQ = [a, b], [a, a * b]
+                    m1 = build_model(kind, {"g": 9.8125}); m2 = build_model(kind, {"g": 9.8125 * b * b / a})
+                else:
+                    sP, sQ = [a, b, a * b * b], [a, a * b, a * b * b]
+                    m1 = build_model(kind, {}); m2 = build_model(kind, {})
+
+                def bcd(name, scaled):
+                    d = {"type": name}
+                    if name == "dirichlet":
+                        d["prim"] = [np.float64(w) * (s if scaled else 1.0) for w, s in zip(DEFAULT_STATE[kind], sP)]
+                    f_ = (a * b * b, b * b, a * b * b) if scaled else (1.0, 1.0, 1.0)
+                    d.update({"ptot": 1.625 * f_[0], "rttot": 1.125 * f_[1], "p": 0.875 * f_[2]})
+                    return d
+                try:
+                    msh1 = mesh.mesh1d(xf=xf) if hasattr(mesh, "mesh1d") and False else None
+                except Exception:
+                    msh1 = None
+                msh1 = mesh.unimesh(ncell=n, length=1.0)
+                msh2 = mesh.unimesh(ncell=n, length=1.0)
+                # general face distribution written into the uniform mesh objects (same attributes as every 1-D mesh class)
+                for msh, s_ in ((msh1, 1.0), (msh2, l)):
+                    msh.xf = xf * s_
+                    msh.xc = 0.5 * (msh.xf[1:] + msh.xf[:-1])
+                    msh.length = msh.xf[-1] - msh.xf[0]
+                d1 = md.fvm1d(m1, msh1, _make_num(num, limiter, 0.25), numflux=flux, bcL=bcd(bcL, False), bcR=bcd(bcR, False))
+                d2 = md.fvm1d(m2, msh2, _make_num(num, limiter, 0.25), numflux=flux, bcL=bcd(bcL, True), bcR=bcd(bcR, True))
+                with warnings.catch_warnings():
+                    warnings.simplefilter("ignore")
+                    Q1 = m1.prim2cons([p.copy() for p in P])
+                    Q2 = m2.prim2cons([p * s for p, s in zip(P, sP)])
+                    r1 = d1.rhs(field.fdata(m1, msh1, Q1))
+                    r2 = d2.rhs(field.fdata(m2, msh2, Q2))
+                    t1 = np.asarray(d1.calc_timestep(field.fdata(m1, msh1, Q1), 0.5))
+                    t2 = np.asarray(d2.calc_timestep(field.fdata(m2, msh2, Q2), 0.5))
+                for k in range(len(r1)):
+                    want = np.asarray(r1[k]) * (sQ[k] * b / l)
+                    got = np.asarray(r2[k])
+                    if not np.array_equal(want, got, equal_nan=True):
+                        j = int(np.argmax(np.abs(got - want)))
+                        show(kind=kind, flux=flux, num=num, limiter=limiter, bc=(bcL, bcR), factors="2^(%d,%d,%d)" % (ea, eb, el), amplitude=amp, n=n,
+                             component=k, cell=j, rescaled_residual=float(want[j]), residual_in_new_units=float(got[j]))
+                        ok = False
+                        break
+                if not np.array_equal(t1 * (l / b), t2, equal_nan=True):
+                    show(kind=kind, factors="2^(%d,%d,%d)" % (ea, eb, el), timestep_rescaled=(t1 * (l / b)).tolist()[:3], timestep_new_units=t2.tolist()[:3])
+                    ok = False
+                if not ok:
+                    return False
+    return ok
